@@ -30,6 +30,8 @@ type Obligation struct {
 	All     []SolverResult
 	File    string
 	Skipped string
+	// text of a counterexample replay on the real code (replay.go)
+	ReplayNote string
 }
 
 type cellKey struct {
@@ -89,11 +91,11 @@ type Frame struct {
 
 type loopInfo struct {
 	wholeNames []string
-	lockNames []string
-	ord    int
-	header *ssa.BasicBlock
-	blocks map[*ssa.BasicBlock]bool
-	spec   *LoopSpec
+	lockNames  []string
+	ord        int
+	header     *ssa.BasicBlock
+	blocks     map[*ssa.BasicBlock]bool
+	spec       *LoopSpec
 }
 
 type exitInfo struct {
@@ -109,45 +111,45 @@ type edgeIn struct {
 }
 
 type FnCtx struct {
-	eng       *Engine
-	fn        *ssa.Function
-	spec      *FuncSpec
-	sc        *Script
-	obls      []*Obligation
-	heapSorts map[string]string
-	notes     map[string]bool
-	unsup     []string
-	frameCtr  int
-	safetyCtr map[string]int
-	top       *Frame
-	assumed   map[string]bool // callee contracts used (for trusted base)
-	inlined   map[string]bool
-	deriv     map[string]derivInfo
-	lockInit  map[string][][2]string
-	callRes   []Val
-	retRes    map[string]Val
-	callArgs  []Val
-	frameTargets []modTarget
-	foreignHavoc bool
-	localTouched map[string]bool
-	dry       int
-	noFacts   int
-	qfacts    [][]string
-	factBase  string
-	factAlloc string
-	masks     map[string]string // term -> shift term s, for (2^s - 1)
-	pow2s     map[string]string // term -> s, for 2^s
-	verAlloc  map[string]string // heap-array version -> allocation mark when it was created
-	boxes     map[string]Val
-	nopanic   bool
-	sweep     bool // zero-annotation sweep mode: loops without invariants allowed
+	eng           *Engine
+	fn            *ssa.Function
+	spec          *FuncSpec
+	sc            *Script
+	obls          []*Obligation
+	heapSorts     map[string]string
+	notes         map[string]bool
+	unsup         []string
+	frameCtr      int
+	safetyCtr     map[string]int
+	top           *Frame
+	assumed       map[string]bool // callee contracts used (for trusted base)
+	inlined       map[string]bool
+	deriv         map[string]derivInfo
+	lockInit      map[string][][2]string
+	callRes       []Val
+	retRes        map[string]Val
+	callArgs      []Val
+	frameTargets  []modTarget
+	foreignHavoc  bool
+	localTouched  map[string]bool
+	dry           int
+	noFacts       int
+	qfacts        [][]string
+	factBase      string
+	factAlloc     string
+	masks         map[string]string // term -> shift term s, for (2^s - 1)
+	pow2s         map[string]string // term -> s, for 2^s
+	verAlloc      map[string]string // heap-array version -> allocation mark when it was created
+	boxes         map[string]Val
+	nopanic       bool
+	sweep         bool // zero-annotation sweep mode: loops without invariants allowed
 	blockCanaries bool
-	lockOnly  bool // only the lock-discipline obligations of this function are claimed (C16 sweep)
-	funcName  string
-	lockDecl  map[string]*GuardDecl
+	lockOnly      bool // only the lock-discipline obligations of this function are claimed (C16 sweep)
+	funcName      string
+	lockDecl      map[string]*GuardDecl
 }
 
-func (c *FnCtx) note(s string)  { c.notes[s] = true }
+func (c *FnCtx) note(s string) { c.notes[s] = true }
 func (c *FnCtx) unsupported(s string) {
 	for _, u := range c.unsup {
 		if u == s {
